@@ -19,7 +19,7 @@ m = {
     },
     'engines': [
         {'name': 'lean-model', 'path': 'lean/', 'serves_properties': sorted(PROPS), 'kind_free_text': 'Lean 4 executable model + property theorems (lake project AnemoModel) and the compiled line-protocol driver anemo_model'},
-        {'name': 'translator', 'path': 'tools/gen.py', 'serves_properties': sorted(PROPS), 'kind_free_text': 'regenerates lean/AnemoModel/Gen/Tables.lean (tables, constants, tie-break arms) from /repo on every run'},
+        {'name': 'translator', 'path': 'tools/gen.py', 'serves_properties': sorted(PROPS), 'kind_free_text': 'regenerates lean/AnemoModel/Gen/Tables.lean from /repo on every run: tables and constants, decision functions, statement sequences of the core functions (as tag lists the Lean side interprets or pins), and shape checks of the functions the models transcribe'},
         {'name': 'harness', 'path': 'harness/', 'serves_properties': sorted(PROPS), 'kind_free_text': 'Rust correspondence harness calling the real code in-process with hooks on; emits op lines + implementation answers; property oracles'},
     ],
     'checks': [],
@@ -37,7 +37,7 @@ for pid in ids:
             'replay_cmd_template': f'./check {pid} --replay {{path}}',
             'engine': 'lean-model',
             'level_claimed': {'category': 'proof', 'text': c['level_text'], 'design_ref': f'DESIGN.md §8 {pid}'},
-            'level_note': c['level_note'],
+            'level_note': c['level_note'] + (' Translator items this property\'s theorems are stated over or pinned to (regenerated / re-checked against /repo on every run; one that no longer translates is reported as a broken tie): ' + ', '.join(c.get('gen_items', [])) + '.' if c.get('gen_items') else ' No translator item: the model is tied to the code by the correspondence run only.'),
             'technique': c['technique'],
         })
     else:
